@@ -26,7 +26,8 @@ RULE = ("all 2^11 section-flag combinations x every PCode member (exhaustive for
         "8 in thorough) with section contents generated from the declarative template, + 3 byte mutants per payload "
         "(compared only when the template still accepts them). distinct_nontrivial = distinct (flag combination, PCode) "
         "pairs on which both decoders were compared and agreed"
-        ". Round-5 additions: the template's plain-data form must re-encode to the payload too; generated payloads are written into viewer object cache files (independent writer hv/vocache_fs.py) together with entries at the format's size limits (1, 9999, 10000 valid; 0 and 10001 dataless) and read back through RegionViewerObjectCache: every valid entry byte-for-byte, then through both decoders")
+        ". Round-5 additions: the template's plain-data form must re-encode to the payload too; generated payloads are written into viewer object cache files (independent writer hv/vocache_fs.py) together with entries at the format's size limits (1, 9999, 10000 valid; 0 and 10001 dataless) and read back through RegionViewerObjectCache: every valid entry byte-for-byte, then through both decoders"
+        ". Rounds 6-7: rotations with particular geometry (exact half turns, over-long vector parts); NameValue text with line-break-like characters")
 ASSUMPTIONS = [
     "well-formed = encodable by the declarative template with an object kind from the PCode enum; payloads whose kind byte "
     "is outside the enum are counted separately (the fast path deliberately builds the enum member)",
